@@ -37,6 +37,20 @@ CLAIMS = {
         "note": "Trusted: E2 std models, generated PartialEq impls are executed from MIR. Outside: text output and reload, modules larger than the stated shape.",
         "technique": "SMT-based bounded symbolic execution of MIR (z3), native replay",
     },
+    "C02": {
+        "engine": "E2-mirsym",
+        "text": "Integer literal fidelity per field type: for every literal text within the stated digit bounds (symbolic digits, both cases, optional sign) the real get_integer either stores a value that denotes exactly the literal or returns an error - no silent truncation. Decided by z3 over the symbolically executed MIR; counterexamples replayed natively.",
+        "design_ref": "DESIGN.md section 4 C02",
+        "note": "Trusted: E2 model of from_str_radix / str::parse for integers. Outside: token conservation through the generated element parsers, comments, floats, uninterpreted IF_DATA (H02b/c not built).",
+        "technique": "SMT-based bounded symbolic execution of MIR (z3 bit-vectors), native replay",
+    },
+    "C01": {
+        "engine": "E2-mirsym",
+        "text": "Two of the mechanisms behind save/reload stability are decided symbolically on the real code: (a) add_quoted_string -> tokenize_core/find_string_end -> get_string/unescape_string is the identity on every string over the escape-relevant alphabet up to 4 chars, and re-writing a loaded string is a fixpoint; (b) add_integer -> get_integer returns the same value and notation for every value of each integer type (decimal of 32/64-bit types: bands next to the range ends).",
+        "design_ref": "DESIGN.md section 4 C01 (H01a, H01b)",
+        "note": "Trusted: E2 fmt/parse models. Outside: the 185 generated parse/stringify pairs, floats, line-offset bookkeeping (C05), A2ML raw capture, k>=2 cycles beyond the fixpoint argument.",
+        "technique": "SMT-based bounded symbolic execution of MIR (z3), native replay",
+    },
 }
 
 _PENDING = "check not built yet in this revision of /verif (see DESIGN.md section 7 for the order of work)"
